@@ -244,6 +244,11 @@ func init() {
 			}
 			t.stop()
 		}
+		// a unary reply that ends early is never delivered as a (shorter) message
+		truncatedUnaryRepliesTo(o, goChecked)
+		// a unary request larger than the transport's message limit, with a field boundary exactly at the
+		// limit: the handler sees the whole message or the call fails; it never sees a clean prefix of it
+		hugeUnaryRequest(o, &id)
 		// a server-side receiver that reuses one message value across receives
 		reuse := &hx.Svc{Stream: func(kind string, ss grpc.ServerStream) error {
 			m := &hx.Msg{}
@@ -300,5 +305,35 @@ func init() {
 			t.stop()
 		}
 		o.Shard = 30
+	}
+}
+
+func hugeUnaryRequest(o *hx.Out, id *int) {
+	type seenT struct {
+		payload, count, headers int
+	}
+	var seen *seenT
+	svc := &hx.Svc{Unary: func(ctx context.Context, req *hx.Msg) (*hx.Msg, error) {
+		seen = &seenT{len(req.Payload), int(req.Count), len(req.Headers)}
+		return &hx.Msg{Count: req.Count}, nil
+	}}
+	for _, t := range bothTransports(svc) {
+		// encoding: tag(1) + 4-byte length + payload, then count, then one header entry
+		for _, over := range []int{0} {
+			n := httpgrpc.VerifMaxMessageSize - 5 + over
+			req := &hx.Msg{Payload: make([]byte, n), Count: 77, Headers: map[string][]byte{"after-the-limit": []byte("x")}}
+			seen = nil
+			out := &hx.Msg{}
+			err := t.ch.Invoke(context.Background(), "/verif.Svc/U", req, out)
+			ok := err != nil || (seen != nil && seen.payload == n && seen.count == 77 && seen.headers == 1 && out.Count == 77)
+			d := map[string]interface{}{"transport": t.name, "kind": "unary request above the message limit, field boundary at the limit", "payload_bytes": n,
+				"encoded_bytes": proto.Size(req), "error": fmt.Sprint(err), "handler_saw": fmt.Sprintf("%+v", seen)}
+			if !ok {
+				o.Violate("the handler received a truncated unary request and the call succeeded", d, fmt.Sprintf("%+v", seen), "the whole message or an error")
+			}
+			*id++
+			goChecked(o, "huge_unary_"+t.name, *id, ok, d)
+		}
+		t.stop()
 	}
 }
